@@ -75,13 +75,14 @@ def check_case(rep, case, closed, stats, max_perms):
                 rep.violation(f"{cdesc}: MI of a balanced hard partition is {got!r}, not log K", {"case": _c(case)}, tags=(name, "logK"))
     kinky = {(r["name"], r["aff"]): r["z"] for r in case["base"]}
     # 2. bounds and finiteness through the 13 registry names
-    vals, grads = {}, {}
+    vals, grads, snaps = {}, {}, {}
     for name in names13():
         A = default_aff(name, x)
-        g = _str_to_gemini(name)
+        g = _inst(name)
         v, G = g(P.copy(), None if A is None else A.copy(), return_grad=True)
         v = float(v)
         vals[name], grads[name] = v, np.asarray(G, dtype=float)
+        snaps[name] = (G, np.array(G, dtype=float, copy=True))
         probs = []
         if not np.isfinite(v) or not np.all(np.isfinite(G)):
             probs.append(f"non-finite score/gradient ({v})")
@@ -99,7 +100,7 @@ def check_case(rep, case, closed, stats, max_perms):
     if onehot:
         for name in names13():
             A = default_aff(name, x)
-            g = _str_to_gemini(name)
+            g = _inst(name)
             for dt in (np.int64, bool):
                 rep.case((n, k, q, case["a"], x, name, "dtype", str(dt)))
                 try:
@@ -121,7 +122,7 @@ def check_case(rep, case, closed, stats, max_perms):
         xp = [x[i] for i in sg]
         for name in names13():
             A = default_aff(name, xp)
-            g = _str_to_gemini(name)
+            g = _inst(name)
             v, G = g(Pp.copy(), None if A is None else A.copy(), return_grad=True)
             rep.case((n, k, q, case["a"], x, name, "perm", tuple(sg), tuple(tau)))
             tolv = 2e-6 if name.startswith("mmd") else 1e-9
@@ -142,7 +143,7 @@ def check_case(rep, case, closed, stats, max_perms):
             # clipping at 1e-12 makes them finite but the limit statement is only meaningful for the other GEMINIs
             continue
         A = default_aff(name, x)
-        g = _str_to_gemini(name)
+        g = _inst(name)
         v, G = g(Pe.copy(), None if A is None else A.copy(), return_grad=True)
         G = np.asarray(G)
         rep.case((n, k, q, case["a"], x, name, "empty"))
@@ -153,6 +154,25 @@ def check_case(rep, case, closed, stats, max_perms):
         if not np.all(G[:, -1] == 0):
             rep.violation(f"{cdesc}: {name}: the empty cluster receives gradient {G[:, -1].tolist()}",
                           {"case": _c(case), "name": name}, tags=(name, "empty-grad"))
+    # the gradient returned for P is a value: later evaluations of the same objective object (other permutations, one more
+    # cluster) must not have rewritten it, or the comparisons above would compare an array with itself
+    for name, (Gret, Gcopy) in snaps.items():
+        rep.case((n, k, q, case["a"], x, name, "alias"))
+        if not np.array_equal(np.asarray(Gret, dtype=float), Gcopy):
+            rep.violation(f"{cdesc}: the gradient array {name} returned for P was overwritten by a later evaluation of the same GEMINI "
+                          f"object: the 'gradient permuted accordingly' it is compared with is no longer the gradient at P",
+                          {"case": _c(case), "name": name}, tags=(name, "alias"))
+
+
+_INST = {}
+
+
+def _inst(name):
+    """One GEMINI object per name for the whole run: a model evaluates the same object batch after batch."""
+    if name not in _INST:
+        from gemclus.gemini._utils import _str_to_gemini
+        _INST[name] = _str_to_gemini(name)
+    return _INST[name]
 
 
 def _c(case):
